@@ -11,11 +11,45 @@ def _slice(items):
     return SliceRef(Ref(Cell(Seq("array", list(items)), "topic"), ()), 0, len(items))
 
 
+SUB = "socket::sub_socket::SubSocket"
+
+
+def _sub_socket(h, trie):
+    """SubSocket around the trie: only `subscriptions` is real; the upstream SUBSCRIBE/CANCEL fan-out to peers is a no-op"""
+    import re
+    prog = h.it.prog
+    fields = prog.struct_fields(SUB)
+    vals = {"subscriptions": BoxV(trie.cell, trie.path), "core": BoxV(Cell(Opaque("core"), "core"), ())}
+    sock = Ref(Cell(Agg(SUB, [vals.get(f, Opaque(f)) for f in fields]), "sub"), ())
+    fan = prog.resolve_method("", SUB, "send_subscription_command_to_all", None)
+    assert fan
+    h.it.hooks[fan] = lambda it, a, d, f: Agg("{future}", ["fanout"])
+    def extern(it, plain, args, dty, func):
+        if plain.endswith("Future>::poll"):
+            return Enum("std::task::Poll", 0, "Ready", [UNIT])
+        if plain.endswith("IntoFuture>::into_future") or plain.startswith("std::pin::Pin::"):
+            return args[0]
+        return NotImplemented
+    h.it.extern = extern
+    src = open(prog.repo_core + "/src/socket/options.rs").read()
+    opt = {n: int(re.search(r"pub const %s: i32 = (\d+);" % n, src).group(1)) for n in ("SUBSCRIBE", "UNSUBSCRIBE")}
+    return sock, opt
+
+
 def history(h):
     k = h.params.get("ops", 3)
     tl = h.params.get("topic_len", 2)
     ml = h.params.get("msg_len", 3)
     trie = Ref(Cell(h.method(TRIE, "new"), "trie"), ())
+    via_socket = h.params.get("via_socket", False)
+    if via_socket:
+        # the application's path: SUBSCRIBE / UNSUBSCRIBE socket options handled by SubSocket::set_pattern_option
+        from .d_c09 import Fut
+        sock, opt = _sub_socket(h, trie)
+        def sub_call(option, t):
+            f = Fut(h, SUB, "set_pattern_option", [sock, opt[option], _slice(t)], trait="ISocket")
+            r = f.poll()
+            h.check(r is not None and r.idx == 0, "c12.sub-option.call-failed")
     h.panic_role = "c12.trie"
     subs = []            # reference: list of (topic bytes, refcount) ; topics compared symbolically
     alphabet = h.params.get("alphabet", 2)
@@ -38,20 +72,27 @@ def history(h):
         op = h.choose(2, f"op{i}")
         t = topic(f"t{i}")
         if op == 0:
-            h.method(TRIE, "subscribe", trie, _slice(t))
+            if via_socket:
+                sub_call("SUBSCRIBE", t)
+            else:
+                h.method(TRIE, "subscribe", trie, _slice(t))
             e = find(t)
             if e is None:
                 subs.append([t, 1])
             else:
                 e[1] += 1
         else:
-            r = h.method(TRIE, "unsubscribe", trie, _slice(t))
+            if via_socket:
+                sub_call("UNSUBSCRIBE", t)
+                r = None
+            else:
+                r = h.method(TRIE, "unsubscribe", trie, _slice(t))
             e = find(t)
             if e is None or e[1] == 0:
-                h.check(r is False, "c12.unsubscribe-of-inactive-topic-returned-true")
+                h.check(r in (False, None), "c12.unsubscribe-of-inactive-topic-returned-true")
             else:
                 e[1] -= 1
-                h.check(r == (e[1] == 0), "c12.unsubscribe-return-value", f"returned {r} with refcount now {e[1]}")
+                h.check(r is None or r == (e[1] == 0), "c12.unsubscribe-return-value", f"returned {r} with refcount now {e[1]}")
         # after every operation: matches(m) <=> some active subscription is a prefix of m, for every message m
         n = h.choose(ml + 1, f"m{i}.len")
         m = []
